@@ -69,8 +69,11 @@ def plan(seed, subbatch):
     pre, ops, fired, rows = planlib.stream_and_schedule(seed, subbatch, n, base_s, start, faults, burst, 0.0, extras,
                                                         encodings=encs, preload=cfg.choice((0, 0, 1, 3)))
     fired["observer_calls"] += n_probe
+    # timezone-aware streams (fixed offset); with offset 0 the ISO encodings alternate "+00:00" and "Z"
+    offset = sub_rng(seed, "aware").choice((None, None, None, 0, 0, 60, -210))
     return {"format": 1, "property": ID, "seed": seed, "subbatch": subbatch,
-            "config": {"kind": kind, "members": members, "hexital": hexcfg, "base_s": base_s},
+            "config": {"kind": kind, "members": members, "hexital": hexcfg, "base_s": base_s,
+                       "utc_offset_min": offset},
             "ops": [{"op": "new", "preload": pre}] + ops + [{"op": "final"}], "fired": dict(fired)}
 
 
@@ -126,9 +129,15 @@ def _states(m):
 
 
 def execute(trace, ctx=None):
+    from .. import catalogue
+
+    catalogue.TZ_OFFSET_MIN = trace["config"].get("utc_offset_min")
+
     def body(run):
         cfg = trace["config"]
         label = "+".join(spec_label(s) for s in cfg["members"])
+        if cfg.get("utc_offset_min") is not None:
+            run.stats["reach:timezone_aware_stream"] += 1
         subj = Machine(run, cfg)          # probes + sampled encodings
         free = Machine(run, cfg)          # no probes, same encodings
         plain = Machine(run, cfg)         # no probes, Candle objects
@@ -227,6 +236,15 @@ def execute(trace, ctx=None):
                     raise Violation("encoding-vs-candle-twin", "encoding", f"{what}:{'default' if mgr in ('default', 'self') else 'timeframe'}",
                                     {"manager": mgr, "n_encoded": len(b.get(mgr, [])), "n_candle": len(c.get(mgr, [])),
                                      "encodings": sorted(encs_used)})
+                # the same candle data means the same instant: awareness and offset of every stored timestamp
+                for name in sorted(free.managers()):
+                    off_b = [x.timestamp.utcoffset() if x.timestamp else None for x in free.managers()[name]]
+                    off_c = [x.timestamp.utcoffset() if x.timestamp else None for x in plain.managers()[name]]
+                    if off_b != off_c:
+                        k = next(i for i in range(min(len(off_b), len(off_c))) if off_b[i] != off_c[i])
+                        raise Violation("encoding-vs-candle-twin", "encoding", "timestamp-offset",
+                                        {"manager": name, "index": k, "encoded": str(off_b[k]), "candle": str(off_c[k]),
+                                         "encodings": sorted(encs_used)})
                 # "delivers the same candle to every timeframe of a Hexital": every candle manager the
                 # Hexital lists must hold exactly the reference resampling of everything delivered
                 if subj.kind == "hexital":
